@@ -160,6 +160,28 @@ def probe_bus(v, bus=None, labels=()):
     return (d, str(lab), tuple(f.shape), digest(f.iloc[0]) if f.shape[0] else '')
 
 
+def probe_bus_direct(v, bus=None, labels=()):
+    '''As probe_bus, but the Bus is the first thing the task touches (tasks meet inside the Bus, not before it).'''
+    lab = labels[(int(v) if isinstance(v, (int, np.integer)) else sum(map(ord, str(v)))) % len(labels)]
+    f = bus[lab]
+    g = bus.iloc[0] if isinstance(v, (int, np.integer)) and v % 2 else bus[labels[-1]]
+    return (str(v), str(lab), tuple(f.shape), str(g.name), digest(f.iloc[0]) if f.shape[0] else '')
+
+
+def alloc_probe(v, sizes=(3, 9, 5)):
+    '''Several containers with default (auto-integer) indices of different sizes per task: every one asks the
+    process-wide positions allocator, so tasks meet inside it with requests below, between and above its capacity.'''
+    import static_frame as sf
+    h = int(v) if isinstance(v, (int, np.integer)) else sum(map(ord, str(v)))
+    out = []
+    for j in range(len(sizes)):
+        k = sizes[(h + j) % len(sizes)]
+        s = sf.Series(('a',) * k)
+        pos = s.index.positions
+        out.append((k, len(s.index), len(pos), bool(pos.flags.writeable), pos.tolist() == list(range(k)), s.index.values.tolist() == list(range(k))))
+    return (str(v), tuple(out))
+
+
 def sample_in_task(v, n=2, seed=3):
     '''Seeded sampling inside a task: the draw must not depend on what other threads do.'''
     import static_frame as sf
